@@ -595,13 +595,31 @@ class CallsMixin:
     def call_spec(self, spec, node, st, label):
         if isinstance(spec, str):
             spec = self.db.callee_spec(spec)
+        if spec.get('ctor'):
+            # object construction: a fresh reference, then the contract of the real __init__ applied to it.
+            # (The reference is unconstrained: if it aliased an existing object that object's fields would be
+            # overwritten -- a sound over-approximation of allocation.)
+            cls = spec['cls']
+            init = self.db.callee_spec(spec['ctor'])
+            r = V(Ty('Ref', (), cls), fresh(REF, 'new_' + cls))
+            self.allocate(r, st)
+            args = [r] + [self.eval(a, st) for a in node.args]
+            kwargs = {k.arg: self.eval(k.value, st) for k in node.keywords}
+            self.apply_spec(init, args, kwargs, st, node, f'{cls}.__init__')
+            return r
         args = []
+        if spec.get('classmethod'):
+            args.append(V(REF, fresh(REF, 'cls')))
         if spec.get('self'):
             # receiver expression is the value of the attribute's object
             if isinstance(node.func, ast.Attribute):
                 args.append(self.eval(node.func.value, st))
         args += [self.eval(a, st) for a in node.args]
         kwargs = {k.arg: self.eval(k.value, st) for k in node.keywords}
+        if spec.get('receiver') and isinstance(node.func, ast.Attribute):
+            spec = dict(spec)
+            spec['params'] = [spec['receiver']] + list(spec['params'])
+            args = [self.eval(node.func.value, st)] + args
         return self.apply_spec(spec, args, kwargs, st, node, label)
 
     def apply_spec(self, spec, args, kwargs, st, node, label):
@@ -634,9 +652,6 @@ class CallsMixin:
             self.emit(st, 'call-pre', f'{label}#{ordn}:{lab}', g, node=node)
             st.assume(g)
         pre = st.copy()
-        # havoc
-        for m in spec.get('modifies', ()):
-            self.havoc_target(m, env, st)
         rty = spec.get('returns')
         result = None
         if rty is not None and rty != 'None':
@@ -647,6 +662,11 @@ class CallsMixin:
             result = self.const(None)
         env2 = dict(env)
         env2['result'] = result
+        if spec.get('allocates'):
+            self.allocate(result, st)
+        # havoc
+        for m in spec.get('modifies', ()):
+            self.havoc_target(m, env2, st)
         raises = spec.get('raises')
         if raises:
             # exceptional behaviours: {label: (ExcName, when)}; when holds -> raises; otherwise normal
@@ -659,6 +679,17 @@ class CallsMixin:
         for lab, e in self.norm_clauses(spec.get('ensures', ())):
             st.assume(self.eval_spec(e, env2, st, pre=pre))
         return result
+
+    def alloc_map(self, st):
+        return self.get_field_array(st, '!alloc', BOOL)
+
+    def allocate(self, r, st):
+        """Object allocation: the new reference differs from every object allocated so far."""
+        if st.guards:
+            raise Unsupported('allocation under a short-circuit guard')
+        a = self.alloc_map(st)
+        st.assume(z3.Not(T.Sel(a, r.t)))
+        st.fields['!alloc'] = z3.Store(a, r.t, z3.BoolVal(True))
 
     def havoc_target(self, m, env, st):
         """`modifies` entry: a parameter name (container contents), 'p.field', or 'Class.field' (whole field map)."""
